@@ -184,6 +184,25 @@ func (e *fnEnc) evalSpec(x Expr, env *specEnv) SVal {
 	case *EBin:
 		return e.evalBin(x, env)
 	case *EQuant:
+		if x.InStr != nil {
+			// quantify over absolute positions of the backing array so that the
+			// trigger (select arr j) is shared by every slice of the same string
+			sv := e.evalSpec(x.InStr, env)
+			if sv.t.Sort != SStr {
+				e.fail("forall c in s: s must be a byte-mode string")
+			}
+			j := sym(fmt.Sprintf("q.j.%d", env.depth))
+			arr := strArr(sv.t)
+			cterm := sel(arr, T(SInt, j), SInt)
+			n := env.with(map[string]SVal{x.Vars[0].Name: {t: cterm}})
+			n.depth = env.depth + 1
+			body := e.evalBool(x.Body, n)
+			rng := and(le(strOff(sv.t), T(SInt, j)), lt(T(SInt, j), add(strOff(sv.t), strLen(sv.t))), e.byteRange(cterm))
+			if x.Forall {
+				return SVal{t: T(SBool, fmt.Sprintf("(forall ((%s Int)) (! (=> %s %s) :pattern (%s)))", j, rng.S, body.S, cterm.S))}
+			}
+			return SVal{t: T(SBool, fmt.Sprintf("(exists ((%s Int)) (and %s %s))", j, rng.S, body.S))}
+		}
 		vars := map[string]SVal{}
 		var binders []string
 		var ranges []Term
@@ -672,6 +691,13 @@ func (e *fnEnc) evalCall(x *ECall, env *specEnv) SVal {
 		// pkg.Type(x) conversions or method-like calls are not supported
 		if sel, ok := x.Fun.(*ESel); ok {
 			if b := e.evalSpec(sel.X, env); b.pkgRef != "" {
+				if sf, ok := e.eng.specFuncs[sel.Name]; ok && e.eng.specFnPkg[sel.Name] == b.pkgRef {
+					var as []SVal
+					for _, a := range x.Args {
+						as = append(as, e.evalSpec(a, env))
+					}
+					return e.applySpecFunc(sf, as, env)
+				}
 				if t, ok := e.eng.lookupType(b.pkgRef, sel.Name); ok && len(x.Args) == 1 {
 					return e.convertSVal(e.evalSpec(x.Args[0], env), t)
 				}
@@ -803,7 +829,16 @@ func (e *fnEnc) evalCall(x *ECall, env *specEnv) SVal {
 		// structural identity of two strings/slices: same backing array, offset and length
 		need(2)
 		a := args()
+		if a[0].t.Sort != a[1].t.Sort {
+			e.fail("same(%s, %s): different sorts %s and %s", x.Args[0], x.Args[1], a[0].t.Sort, a[1].t.Sort)
+		}
 		return SVal{t: eq(a[0].t, a[1].t)}
+	case "joinPath":
+		need(2)
+		a := args()
+		ss := e.sortOf(types.Typ[types.String])
+		f := e.declareFun("joinPath", []Sort{ss, ss}, ss)
+		return SVal{t: app(ss, f, a[0].t, a[1].t), typ: types.Typ[types.String]}
 	case "lexcmp":
 		need(2)
 		a := args()
@@ -928,7 +963,16 @@ func (e *fnEnc) applySpecFunc(sf *SpecFunc, args []SVal, env *specEnv) SVal {
 		argTerms = append(argTerms, t)
 		psorts = append(psorts, ps)
 	}
-	if sf.Body != nil && !recursive {
+	revealed := false
+	for _, r := range strings.Fields(e.ctr.Options["reveal"]) {
+		if r == sf.Name {
+			revealed = true
+		}
+	}
+	if sf.Opaque && revealed {
+		recursive = true // declared as a function symbol plus its defining axiom
+	}
+	if sf.Body != nil && !recursive && !sf.Opaque {
 		if env.depth > 40 {
 			e.fail("spec func expansion too deep (%s)", sf.Name)
 		}
@@ -952,7 +996,7 @@ func (e *fnEnc) applySpecFunc(sf *SpecFunc, args []SVal, env *specEnv) SVal {
 	first := !e.declSeen[sym(fname)]
 	f := e.declareFun(fname, psorts, rs)
 	if first {
-		if recursive {
+		if recursive && (!sf.Opaque || revealed) {
 			// defining axiom
 			var binders []string
 			qvars := map[string]SVal{}
